@@ -131,6 +131,7 @@ def run(ctx, replay=None):
                 ctx.violation({"property": "C17", "what": "Start followed %s microseconds later by Stop: %s (round %s)" % (
                     ss.get("pause_us"), ss.get("what") or ("fatal: " + ss.get("fatal", "")), ss.get("stuck_at")), "mode": "startstop",
                     "case": {"seed": ctx.seed, "rounds": rounds}, "result": ss})
+    coverage["slowest_shutdown_ms"] = max([o.get("shutdown_ms", 0) for o in results] or [0])
     coverage["evaluations"] = len(cases)
     coverage["distinct_nontrivial"] = len(nontrivial)
     coverage["samples"] = [{"case": c, "result": o} for c, o in list(zip(cases, results))[:2]]
